@@ -675,7 +675,16 @@ class Tr:
             last_ret = stmts[-1]
             stmts = stmts[:-1]
         # early returns `if c: A; return x` followed by the rest of the body: lowered to if/else on a result variable
-        lowered = lower_returns(body) if any(isinstance(n, ast.Return) for st in stmts for n in ast.walk(st)) else None
+        lowered = None
+        if any(isinstance(n, ast.Return) for st in stmts for n in ast.walk(st)):
+            full = list(body)
+            if last_ret is None and full:
+                # a procedure with guard-clause returns: falling off the end is `return None`
+                imp = ast.Return(value=None)
+                ast.copy_location(imp, full[-1])
+                ast.fix_missing_locations(imp)
+                full = full + [imp]
+            lowered = lower_returns(full)
         if lowered is not None:
             for st in lowered:
                 out.extend(self.stmt(st, env2))
@@ -1027,12 +1036,12 @@ class Tr:
                     c = lt(sa, sb)
                 elif isinstance(op, ast.Gt):
                     c = lt(sb, sa)
-                elif isinstance(op, ast.GtE):
-                    c = lt(sa, sb)
-                    c = ('CNot', c) if c else None
-                elif isinstance(op, ast.LtE):
-                    c = lt(sb, sa)
-                    c = ('CNot', c) if c else None
+                elif isinstance(op, (ast.GtE, ast.LtE)):
+                    # `a >= b` is NOT `not (a < b)` when a fitness is NaN (both comparisons are False): the IR's comparisons are
+                    # on non-NaN keys, so only `<`, `>` and `not (.. < ..)` are translated; the non-strict forms are refused
+                    if lt(sa, sb) is not None or lt(sb, sa) is not None:
+                        self.err(node, 'non-strict comparison of fitnesses (%s): differs from the negated strict comparison for NaN '
+                                       'and accepts ties; write the strict test' % ast.unparse(node))
                 if c is not None:
                     return c
         self.ev_num(node, env)
